@@ -1,13 +1,84 @@
 -- driver-prefix: ext ExtEvent
 /- line-protocol glue for the external-event model (parsing / printing only) -/
 import EdzedModel.ExtEvent
+import EdzedModel.BlkCtor
 import EdzedModel.Drv.ErrorReg
 
 namespace Edzed.ExtEvent
 
 structure DState where
   life : ErrorReg.St := {}
+  world : BlkCtor.World := {}          -- the heap of the constructor scenarios (`w-…` lines)
   deriving Inhabited
+
+/-! ### the constructor scenarios: parsing / printing -/
+open BlkCtorPy in
+/-- `v<value>` a plain value, `b<hex name>` the block of that name in the current circuit, `e` a new event-like
+    object (it has a `send` attribute) -/
+def parseTok (w : BlkCtor.World) (t : String) : Option (BlkCtor.World × Arg Nat) :=
+  match t.toList with
+  | 'v' :: r => (fun v => (w, Arg.val v)) <$> Val.parse (String.ofList r)
+  | 'b' :: r => do
+    let n ← hexDecode (String.ofList r)
+    let c ← w.current
+    let b ← BlkCtor.findblock w c n
+    pure (w, Arg.obj b)
+  | ['e'] =>
+    let r := w.alloc { cls := "EventLike", bases := ["EventLike"], members := [("send", .method)] }
+    some (r.1, Arg.obj r.2)
+  | _ => none
+
+open BlkCtorPy in
+def parseArgs (w : BlkCtor.World) (s : String) : Option (BlkCtor.World × List (Arg Nat)) :=
+  if s == "-" then some (w, [])
+  else (s.splitOn "|").foldl (fun acc t => do
+    let (w, l) ← acc
+    let (w, a) ← parseTok w t
+    pure (w, l ++ [a])) (some (w, []))
+
+open BlkCtorPy in
+def parseKw (w : BlkCtor.World) (s : String) : Option (BlkCtor.World × Kw (Arg Nat)) :=
+  if s == "-" then some (w, [])
+  else (s.splitOn "|").foldl (fun acc t => do
+    let (w, l) ← acc
+    match t.splitOn "=" with
+    | [k, v] =>
+      let k ← hexDecode k
+      let (w, a) ← parseTok w v
+      pure (w, l ++ [(k, a)])
+    | _ => none) (some (w, []))
+
+open BlkCtorPy in
+def renderArg (w : BlkCtor.World) : Arg Nat → String
+  | .val v => "v" ++ v.render
+  | .obj o => "o" ++ hexEncode (w.nameOf o)
+
+open BlkCtorPy in
+def renderAttr (w : BlkCtor.World) : Option BlkCtor.Attr → String
+  | some (.arg a) => renderArg w a
+  | some (.str s) => "v" ++ (Val.str s).render
+  | some (.bool b) => "v" ++ (Val.bool b).render
+  | some (.obj o) => "o" ++ hexEncode (w.nameOf o)
+  | some _ => "?"
+  | none => "-"
+
+def insertStr (x : String) : List String → List String
+  | [] => [x]
+  | y :: r => if x < y then x :: y :: r else y :: insertStr x r
+
+def sortStrs (l : List String) : List String := l.foldr insertStr []
+
+def circuitLine (w : BlkCtor.World) : String :=
+  match w.current with
+  | none => "none"
+  | some c =>
+    let b := fun (x : Bool) => if x then "1" else "0"
+    s!"circ n={(w.heap.filter (·.cls == "Circuit")).length} ready={b (BlkCtor.isReady w c)} fin={b (w.attrTruthy c "_finalized")} err={b (!w.attrIsNone c "_error")} blocks={",".intercalate ((w.blocks c).map fun p => hexEncode p.1)}"
+
+def blockReply (w : BlkCtor.World) (o : Nat) : String :=
+  let keys := (w.obj o).attrs.map (·.1)
+  let xs := ((w.obj o).attrs.filter fun p => BlkCtor.goodKey' p.1).map fun p => hexEncode p.1 ++ "=" ++ renderAttr w (some p.2)
+  s!"ok {hexEncode (w.nameOf o)} attrs={",".intercalate (sortStrs keys)} comment={renderAttr w (w.get? o "comment")} debug={renderAttr w (w.get? o "debug")} initdef={renderAttr w (w.get? o "initdef")} x={",".intercalate (sortStrs xs)}"
 
 def parseDest : String → Option Dest
   | "sblockObj" => some .sblockObj
@@ -52,6 +123,70 @@ def handle (d : DState) : List String → DState × String
           | .typeError => "TypeError"
           | .delivered x => "delivered " ++ x.render)
     | _, _, _ => (d, "bad-op")
+  | ["w-reset"] => ({ d with world := {} }, "ok")
+  | ["w-getcircuit"] =>
+    let w := (BlkCtor.getCircuit d.world).1
+    ({ d with world := w }, circuitLine w)
+  | ["w-resetcircuit"] =>
+    let w := BlkCtor.resetCircuit d.world
+    ({ d with world := w }, circuitLine w)
+  | ["w-finalize"] =>
+    let r := BlkCtor.getCircuit d.world
+    let w := r.1.setAttr r.2 "_finalized" (.arg (.val (.bool true)))
+    ({ d with world := w }, circuitLine w)
+  | ["w-abort"] =>
+    let r := BlkCtor.getCircuit d.world
+    let w := (BlkCtor.abort r.1 r.2 "RuntimeError").1
+    ({ d with world := w }, circuitLine w)
+  | ["w-block", kind, cls, bases, ifv, args, kwargs] =>
+    match hexDecode cls, (if bases == "-" then some [] else (bases.splitOn ",").mapM hexDecode),
+          parseArgs d.world args with
+    | some cls, some bases, some (w, args) =>
+      match parseKw w kwargs with
+      | some (w, kw) =>
+        let member : Option BlkCtor.Member := match ifv with
+          | "m" => some .method | "d" => some .dummySync | "a" => some .dummyAsync | "x" => some .data
+          | "p" => some .propAttrError | "r" => some .propRuntimeError | _ => none
+        let lib := if kind == "s" then ["SBlock", "Block"] else if kind == "c" then ["CBlock", "Block"] else ["Block"]
+        let r := w.alloc { cls := cls, bases := cls :: bases ++ lib,
+                           members := match member with
+                             | some m => [("init_from_value", m)]
+                             | none => if kind == "s" then [("init_from_value", .dummySync)] else [] }
+        let res := if kind == "s" then BlkCtor.sblockInitCall r.1 r.2 args kw
+                   else if kind == "c" then BlkCtor.cblockInitCall r.1 r.2 args kw
+                   else BlkCtor.blockInitCall r.1 r.2 args kw
+        ({ d with world := res.1 }, match res.2 with
+          | .ok () => blockReply res.1 r.2
+          | .error e => e)
+      | none => (d, "bad-op")
+    | _, _, _ => (d, "bad-op")
+  | ["w-ext", args, kwargs] =>
+    match parseArgs d.world args with
+    | some (w, args) =>
+      match parseKw w kwargs with
+      | some (w, kw) =>
+        let r := w.alloc { cls := "ExtEvent", bases := ["ExtEvent"] }
+        let res := BlkCtor.extInitCall r.1 r.2 args kw
+        ({ d with world := res.1 }, match res.2 with
+          | .ok () => s!"ok {renderAttr res.1 (res.1.get? r.2 "_source")} dest={renderAttr res.1 (res.1.get? r.2 "_dest")} etype={renderAttr res.1 (res.1.get? r.2 "_etype")}"
+          | .error e => e)
+      | none => (d, "bad-op")
+    | none => (d, "bad-op")
+  | ["w-const", tok] =>
+    match parseTok d.world tok with
+    | some (w, a) =>
+      let res := BlkCtor.constCall w "Const" a
+      ({ d with world := res.1 }, match res.2 with
+        | .ok o => s!"ok same={if o < w.heap.length then 1 else 0} out={renderAttr res.1 (res.1.get? o "_output")}"
+        | .error e => e)
+    | none => (d, "bad-op")
+  | ["w-iscurrent", task, cur] =>
+    let r := BlkCtor.getCircuit d.world
+    let w := match task.toNat? with
+      | some n => r.1.setAttr r.2 "_simtask" (.ext (.task n))
+      | none => r.1
+    let w := { w with curTask := if cur == "x" then none else some cur.toNat? }
+    ({ d with world := w }, if BlkCtor.isCurrentTask w r.2 then "1" else "0")
   | ["name", "user", n] => match hexL n with
     | some n => (d, nameReply (.user n))
     | none => (d, "bad-op")
